@@ -125,6 +125,34 @@ Lemma fill_flush_alloc_capped h now t :
    f_round_to_isize (PrimFloat.mul (f_of_N (sr_rate (h_src h))) (opt_default f0 (sr_rtt_s (h_src h)))))%Z.
 Proof. intros E. unfold hc_fill_flush_alloc. rewrite E. lia. Qed.
 
+(* ... and gains at most what the rate accrued since the previous step *)
+Lemma fill_flush_alloc_gain h now t :
+  h_last_flushed h = Some t ->
+  (hc_fill_flush_alloc h now <= sat_add_isize (h_credit h) (refill (sr_rate (h_src h)) t now))%Z.
+Proof. intros E. unfold hc_fill_flush_alloc. rewrite E. lia. Qed.
+
+(* The refill does not depend on how often step() runs: over any schedule of steps t0, t1, ..., tn at one rate the
+   gains add up to the gain of a single step from t0 to tn (defect D20: the increments used to be rounded one by one,
+   so a step per millisecond gained 2 bytes where 1.75 were due, or nothing at all under half a byte per step). *)
+Fixpoint refills (rate : N) (t0 : N) (ts : list N) : Z :=
+  match ts with
+  | [] => 0%Z
+  | t :: ts' => (refill rate t0 t + refills rate t ts')%Z
+  end.
+
+Lemma last_cons_default {A} (ts : list A) : forall t d, last (t :: ts) d = last ts t.
+Proof.
+  induction ts as [|a l IH]; intros t d; [reflexivity|].
+  change (last (t :: a :: l) d) with (last (a :: l) d). rewrite (IH a d), (IH a t). reflexivity.
+Qed.
+
+Lemma refills_telescope rate ts : forall t0, refills rate t0 ts = refill rate t0 (last ts t0).
+Proof.
+  induction ts as [|t ts IH]; intros t0; cbn [refills].
+  - cbn [last]. unfold refill. lia.
+  - rewrite IH, last_cons_default. unfold refill. lia.
+Qed.
+
 (* every frame the data emitter builds has at most MAX_FRAME_SIZE bytes when its datagrams fit *)
 Lemma build_data_frame_len seq nonce enc count :
   len (build_data_frame seq nonce enc count) = 6 + len enc + 4.
